@@ -550,7 +550,7 @@ class Fn:
                     break
 
         add(cond, pol)
-        x = self.expand_expr(cond)
+        x = self.expand_expr(cond, use_block=b)
         if x is not cond:
             add(x, pol, "x")      # the same guard with named temporaries written out
         return res
@@ -580,6 +580,7 @@ class Fn:
         references and are never assigned, incremented or compound-assigned afterwards."""
         if getattr(self, "_stable", None) is None:
             decl, writes = {}, defaultdict(int)
+            self._decl_pos, self._write_pos = {}, defaultdict(list)
             for prm in self.params:
                 if prm.get("vid") is not None:
                     writes[prm["vid"]] += 1
@@ -587,16 +588,20 @@ class Fn:
                 k = ev.get("k")
                 if k == "decl" and ev.get("vid") is not None:
                     writes[ev["vid"]] += 1
+                    self._write_pos[ev["vid"]].append(pos)
                     if ev.get("init") is not None and not ev.get("isref") and "&" not in (ev.get("type") or ""):
                         decl[ev["vid"]] = ev["init"]
+                        self._decl_pos[ev["vid"]] = pos
                 elif k == "bin" and ev.get("op", "").endswith("=") and ev.get("op") not in ("==", "!=", "<=", ">="):
                     l = strip_casts(ev.get("l"))
                     if isinstance(l, dict) and l.get("k") == "var":
                         writes[l.get("vid")] += 1
+                        self._write_pos[l.get("vid")].append(pos)
                 elif k == "un" and ev.get("op") in ("++", "--"):
                     x = strip_casts(ev.get("e"))
                     if isinstance(x, dict) and x.get("k") == "var":
                         writes[x.get("vid")] += 1
+                        self._write_pos[x.get("vid")].append(pos)
             addr = set()
             for pos, nd in self.all_nodes():
                 if nd.get("k") == "un" and nd.get("op") == "&":
@@ -605,30 +610,58 @@ class Fn:
                         addr.add(x.get("vid"))
             self._stable = {v: i for v, i in decl.items() if writes[v] == 1 and v not in addr}
             self._written = {v for v, n in writes.items() if n > 1} | addr
+            self._addr_taken = addr
         return self._stable
 
-    def expand_expr(self, e, depth=4):
+    def _unchanged_between(self, leaf_vid, decl_pos, use_block):
+        """No write to leaf_vid can execute after the declaration at decl_pos and before the branch
+        at the end of use_block without the declaration executing again in between (a loop variable
+        named inside the loop body is fine: `const bool owns = flags[b]; if (owns)` ... `++b`)."""
+        if leaf_vid in self._addr_taken or use_block is None:
+            return False
+        for w in self._write_pos.get(leaf_vid, []):
+            if w.b == decl_pos.b and w.i < decl_pos.i:
+                after_decl = False
+            else:
+                after_decl = w.b == decl_pos.b or w.b in self.reachable_blocks(start=decl_pos.b)
+            if not after_decl:
+                continue
+            # can the use be reached from the write without re-executing the declaration?
+            if w.b == use_block:
+                if not (w.b == decl_pos.b and w.i < decl_pos.i):
+                    return False
+                continue
+            r = self.reachable_blocks(start=w.b, removed_blocks={decl_pos.b} if decl_pos.b != w.b else set())
+            if w.b == decl_pos.b:
+                # write after the declaration in the same block: leaving the block keeps the written value
+                r = self.reachable_blocks(start=w.b)
+            if use_block in r:
+                return False
+        return True
+
+    def expand_expr(self, e, depth=4, use_block=None):
         """e with every use of a stable local replaced by its initialiser (transitively): the guard
         `if (writerPresent)` after `const bool writerPresent = (before & kBit) != 0;` and
         `const int before = word.fetch_add(1);` reads `(word.fetch_add(1) & kBit) != 0`. A local is
-        only substituted if every variable its initialiser mentions is itself never reassigned, so
-        the written-out expression denotes the same value. Returns e itself if nothing changed."""
+        only substituted if every variable its initialiser mentions is never reassigned -- or, when
+        the block of the use is known, cannot be reassigned between the declaration and that use --
+        so the written-out expression denotes the same value. Returns e itself if nothing changed."""
         st = self._stable_locals()
         if not st or depth <= 0 or not isinstance(e, (dict, list)):
             return e
         if isinstance(e, list):
-            xs = [self.expand_expr(x, depth) for x in e]
+            xs = [self.expand_expr(x, depth, use_block) for x in e]
             return xs if any(a is not b for a, b in zip(xs, e)) else e
         if e.get("k") == "var" and e.get("vid") in st and e.get("vk") in ("local", None):
             init = st[e["vid"]]
             leaves = [x for x in subexprs(init) if isinstance(x, dict) and x.get("k") == "var" and x.get("vk") in ("local", "param")]
-            if all(x.get("vid") not in self._written for x in leaves):
-                return self.expand_expr(init, depth - 1)
+            if all(x.get("vid") not in self._written or self._unchanged_between(x.get("vid"), self._decl_pos[e["vid"]], use_block) for x in leaves):
+                return self.expand_expr(init, depth - 1, use_block)
             return e
         out = None
         for key in ("l", "r", "e", "c", "t", "f", "obj", "base", "idx", "args", "kids"):
             if key in e and isinstance(e[key], (dict, list)):
-                x = self.expand_expr(e[key], depth)
+                x = self.expand_expr(e[key], depth, use_block)
                 if x is not e[key]:
                     if out is None:
                         out = dict(e)
